@@ -174,3 +174,23 @@ def pmap(ctx, worker, tasks, nproc=None, chunksize=20):
         if pool is not None:
             pool.close()
             pool.join()
+
+
+class Recorder:
+    """Stand-in for Ctx inside pmap workers: collects the same calls as records."""
+
+    def __init__(self):
+        self.records = []
+        self.replay_filter = None
+        self.notes = {}
+
+    def case(self, key=None, nontrivial=True, sample=None):
+        self.records.append(('case', key, nontrivial, sample))
+
+    def violation(self, sig, detail, case=None):
+        self.records.append(('viol', sig, detail, case))
+
+    def check(self, cond, sig, detail, case=None):
+        if not cond:
+            self.violation(sig, detail, case)
+        return bool(cond)
